@@ -9,7 +9,8 @@ from ..lib import fmt, fuse_elems, is_call_to, per_element
 from ..progdb import AnalysisError
 from ..terms import T, const
 from . import metrics_model as mm
-from .c01 import _guarded_by_length, _pipeline, _run_wiring
+from .c01 import _guarded_by_length, _pipeline, _pipeline_inputs, \
+    _run_wiring
 
 EXPLANATION = """
 Structure of metrics.RPE and main_rpe.rpe/run on provenance terms, specialised
@@ -53,7 +54,8 @@ MANIFEST = dict(
               "must-precede on the event log",
 )
 FLOORS = {"C02.1": 1, "C02.2": 8, "C02.3": 5, "C02.4": 3, "C02.5": 5,
-          "C02.6": 14, "C02.7": 30, "C02.8": 20}
+          "C02.6": 14, "C02.7": 30, "C02.8": 20,
+          "C02.9": 12}
 
 RPE = "evo.core.metrics.RPE"
 IDP = "evo.core.metrics.id_pairs_from_delta"
@@ -208,6 +210,7 @@ def check(ctx):
     _delta_unit(ctx)
     from .c01 import _pipeline_views
     _pipeline_views(ctx, "C02.8")
+    _pipeline_inputs(ctx, "C02.9")
 
 
 def coindexing(ctx, res, member, err, dids, IDPAIRS, rule):
